@@ -17,6 +17,7 @@ func init() {
 	vRegister("H_C20_verify", H_C20_verify)
 	vRegister("H_C20_builtin_signers", H_C20_builtin_signers)
 	vRegister("H_C20_encoders_refuse_empty", H_C20_encoders_refuse_empty)
+	vRegister("H_C20_sign_message", H_C20_sign_message)
 }
 
 // outcome of one signer call: 0 ok non-empty, 1 ok but empty, 2 error
@@ -293,5 +294,67 @@ func H_C20_encoders_refuse_empty() {
 	}
 	vAssert("encoders: empty signature refused", err != nil)
 	vAssert("encoders: no bytes", out == nil)
+	vReach("end")
+}
+
+// COSE_Sign with n signers, each with its own outcome (ok / ok-but-empty / error with garbage bytes)
+func H_C20_sign_message() {
+	maxN := 3
+	if vTier() == 1 {
+		maxN = 4
+	}
+	n := 1 + vChoose("n", maxN)
+	msg := &SignMessage{Headers: Headers{Protected: ProtectedHeader{}, Unprotected: UnprotectedHeader{}}, Payload: vBlob("payload")}
+	var spies []*spySigner
+	var outcomes []int
+	var signers []Signer
+	for i := 0; i < n; i++ {
+		msg.Signatures = append(msg.Signatures, NewSignature())
+		sp, o := mkFaultySigner("k" + vItoa(i))
+		spies, outcomes, signers = append(spies, sp), append(outcomes, o), append(signers, sp)
+	}
+	err := msg.Sign(nil, mkExternal("ext"), signers...)
+	firstFail := -1
+	for i := 0; i < n; i++ {
+		if outcomes[i] == 2 && spies[i].calls > 0 && firstFail < 0 {
+			firstFail = i
+		}
+	}
+	if firstFail >= 0 {
+		vAssert("COSE_Sign: the failing signer's error is returned", err == errSpySign)
+		vAssert("COSE_Sign: no signature stored for the failing slot", len(msg.Signatures[firstFail].Signature) == 0)
+		for j := firstFail + 1; j < n; j++ {
+			vAssert("COSE_Sign: signers after the failure are not called", spies[j].calls == 0)
+			vAssert("COSE_Sign: slots after the failure stay empty", len(msg.Signatures[j].Signature) == 0)
+		}
+	}
+	for i := 0; i < n; i++ {
+		if outcomes[i] == 2 {
+			vAssert("COSE_Sign: a failing signer never leaves bytes in its slot", len(msg.Signatures[i].Signature) == 0)
+		}
+	}
+	allFilled := true
+	for i := 0; i < n; i++ {
+		if len(msg.Signatures[i].Signature) == 0 {
+			allFilled = false
+		}
+	}
+	out, merr := msg.MarshalCBOR()
+	if !allFilled || err != nil && firstFail >= 0 {
+		vAssert("COSE_Sign: a message with a failed / empty slot cannot be serialised", merr != nil && out == nil)
+	}
+	if merr == nil {
+		// every emitted COSE_Signature carries a non-empty signature
+		w := vParse(out)
+		ok := w != nil && nMajor(w) == 6 && nMajor(nChild(w, 0)) == 4 && nLen(nChild(w, 0)) == 4
+		vAssert("COSE_Sign: output parses", ok)
+		if ok {
+			sa := nChild(nChild(w, 0), 3)
+			for i := 0; i < nLen(sa); i++ {
+				sn := nChild(sa, i)
+				vAssert("COSE_Sign: no empty signature on the wire", nMajor(sn) == 4 && nLen(sn) == 3 && len(nBytes(nChild(sn, 2))) > 0)
+			}
+		}
+	}
 	vReach("end")
 }
